@@ -1737,9 +1737,18 @@ impl Sim {
 // Public (crate) entry points used by the iterator layer and the rayon API
 // ---------------------------------------------------------------------------
 
+/// Hook site at the entry of the library's exact in-sphere predicate.
+pub const SITE_EXACT_PREDICATE: u32 = 10;
+static EXACT_PREDICATE_CALLS: AtomicU64 = AtomicU64::new(0);
+
+/// Calls of the exact predicate made by simulated workers since process start.
+pub fn exact_predicate_calls() -> u64 {
+    EXACT_PREDICATE_CALLS.load(Ordering::Relaxed)
+}
+
 /// A point inside user code at which the scheduler may preempt
 /// (target of the `sched_point` hook of the library under test).
-pub fn sched_point(_site: u32) {
+pub fn sched_point(site: u32) {
     // hot path: no Arc clone, no lock unless the scheduler is due to look
     CURRENT.with(|c| {
         let b = c.borrow();
@@ -1747,6 +1756,10 @@ pub fn sched_point(_site: u32) {
             Some((sim, _, me)) if *me != DRIVER => (sim, *me),
             _ => return,
         };
+        if site == SITE_EXACT_PREDICATE {
+            // probe: the exact big-integer predicate decided something inside a simulated parallel section
+            EXACT_PREDICATE_CALLS.fetch_add(1, Ordering::Relaxed);
+        }
         if !sim.hooks_live.load(Ordering::Relaxed) {
             // same outcome as the slow path (no preemption), without the lock
             HOOKS_PASSED.with(|h| h.set(h.get() + 1));
